@@ -199,9 +199,13 @@ func (w *writersWorld) apply(f []string) string {
 		for s.Discovery.InboundUpdates.Load() == before && time.Now().Before(deadline) {
 			time.Sleep(200 * time.Microsecond)
 		}
-		for {
-			s.EnsureSynced(w.f)
+		deadline = time.Now().Add(20 * time.Second)
+		for time.Now().Before(deadline) {
 			seen := s.Discovery.InboundUpdates.Load()
+			if s.Discovery.CommittedUpdates.Load() < seen {
+				time.Sleep(500 * time.Microsecond)
+				continue
+			}
 			time.Sleep(3 * time.Millisecond)
 			if s.Discovery.InboundUpdates.Load() == seen && s.Discovery.CommittedUpdates.Load() >= seen {
 				break
